@@ -13,6 +13,8 @@ package props
 import (
 	"context"
 	"fmt"
+	"os"
+	"strconv"
 	"strings"
 	"sync"
 	"time"
@@ -134,6 +136,11 @@ func (f *c14Recv) OnReceive(ctx context.Context, headers api.HeaderMap, buf buff
 	case "d":
 		f.handler.SendHijackReplyWithBody(470+f.id, headers, fmt.Sprintf("filter-%d-says-no", f.id))
 		return api.StreamFilterStop
+	case "D":
+		// a direct response as the flowcontrol filter sends it: status through the variable, the request's headers, a body
+		_ = variable.SetString(ctx, types.VarHeaderStatus, strconv.Itoa(570+f.id))
+		f.handler.SendDirectResponse(headers, buffer.NewIoBufferString(fmt.Sprintf("filter-%d-direct", f.id)), nil)
+		return api.StreamFilterStop
 	case "t":
 		f.handler.TerminateStream(480 + f.id)
 		return api.StreamFilterStop
@@ -197,7 +204,7 @@ var c14Shapes = []c14Shape{
 
 func c14Engine(c *lab.Ctx) {
 	shape := c14Shapes[c.Batch%len(c14Shapes)]
-	c.Rule(fmt.Sprintf("running MOSN, chain shape by batch (this batch: receive phases %v + %d send filters); every verdict vector over the per-phase alphabets for chains <= 4 (sampled above) x 3 protocols; trace checker over filter / upstream / client logs; distinct = (shape, protocol, verdict vector)", shape.phases, shape.sends))
+	c.Rule(fmt.Sprintf("running MOSN, chain shape by batch (this batch: receive phases %v + %d send filters); every verdict vector over the per-phase alphabets (continue, hijack, hijack with body, direct response, terminate, termination status, stop, re-match, re-choose) for chains <= 4 (sampled above) x 3 protocols, on a plain route and - when a filter answers - again on a route whose retry policy would retry the filter's status; trace checker over filter / upstream / client logs; distinct = (shape, protocol, verdict vector)", shape.phases, shape.sends))
 	var flt []jmap
 	for i, ph := range shape.phases {
 		flt = append(flt, jmap{"type": "verif_scripted", "config": jmap{"id": i, "phase": ph}})
@@ -206,7 +213,13 @@ func c14Engine(c *lab.Ctx) {
 		flt = append(flt, jmap{"type": "verif_scripted", "config": jmap{"id": 100 + i, "send": true}})
 	}
 	routes := func(proto string) []routeSpec {
-		return []routeSpec{{Key: "f", Cluster: "cl-$P", Extra: jmap{"timeout": "1s"}}}
+		var codes []int
+		for s := 460; s < 490; s++ {
+			codes = append(codes, s, s+110) // every status a scripted filter answers with: 460..489 and 570..579 (+)
+		}
+		// "qr": the same (the key must not extend "f": HTTP routes match by path prefix), with a retry policy that would retry every status a filter answers with
+		return []routeSpec{{Key: "f", Cluster: "cl-$P", Extra: jmap{"timeout": "1s"}},
+			{Key: "qr", Cluster: "cl-$P", Extra: jmap{"timeout": "1s", "retry_policy": jmap{"retry_on": true, "num_retries": 2, "status_codes": codes}}}}
 	}
 	e, err := newEngine(c, engineProtos, routes, nil, func(l *mosnListener) { l.StreamFlt = flt })
 	if err != nil {
@@ -215,7 +228,7 @@ func c14Engine(c *lab.Ctx) {
 	}
 	// verdict alphabets per phase
 	alpha := func(ph string) []string {
-		a := []string{"c", "h", "d", "t", "T", "s"}
+		a := []string{"c", "h", "d", "D", "t", "T", "s"}
 		switch ph {
 		case "after_route":
 			a = append(a, "m")
@@ -275,12 +288,24 @@ func c14Engine(c *lab.Ctx) {
 				defer wg.Done()
 				cl := e.newClient(proto, fmt.Sprintf("%s-c14-%d", proto, w))
 				defer cl.close()
-				for vi, vec := range vectors {
+				for vi2 := 0; vi2 < 2*len(vectors); vi2++ {
+					vi, key := vi2/2, "f"
+					vec := vectors[vi]
 					if vi%par != w {
 						continue
 					}
-					tok := fmt.Sprintf("f%d-%s-%d", c.Batch, proto, vi)
-					req := reqFor(proto, "f", tok, "ok")
+					if vi2%2 == 1 {
+						// second pass on the route with a retry policy, for vectors in which a filter answers
+						key = "qr"
+						if !strings.ContainsAny(strings.Join(vec, ""), "hdDt") {
+							continue
+						}
+					}
+					if only := os.Getenv("VERIF_C14_ONLY"); only != "" && only != strings.Join(vec, ",") {
+						continue
+					}
+					tok := fmt.Sprintf("%s%d-%s-%d", key, c.Batch, proto, vi)
+					req := reqFor(proto, key, tok, "ok")
 					req.Headers = append(req.Headers, [2]string{"x-verif-v", strings.Join(vec, ",")})
 					hasT := false
 					for _, v := range vec {
@@ -300,7 +325,7 @@ func c14Engine(c *lab.Ctx) {
 					time.Sleep(time.Millisecond)
 					evs := c14Events(tok)
 					ups := e.log.upsFor(tok)
-					wit := map[string]interface{}{"proto": proto, "chain": fmt.Sprint(shape.phases), "send_filters": shape.sends, "verdicts": strings.Join(vec, ","), "filter_log": fmt.Sprint(evs), "upstream_attempts": len(ups), "client": fmt.Sprintf("%s %d", ev.Kind, ev.Status)}
+					wit := map[string]interface{}{"proto": proto, "chain": fmt.Sprint(shape.phases), "send_filters": shape.sends, "verdicts": strings.Join(vec, ","), "route": key, "filter_log": fmt.Sprint(evs), "upstream_attempts": len(ups), "client": fmt.Sprintf("%s %d", ev.Kind, ev.Status)}
 					sig := proto
 					// --- which filters ran, in execution order of the statement: phases in order, configured order inside
 					calls := map[int]int{}
@@ -352,7 +377,7 @@ func c14Engine(c *lab.Ctx) {
 							continue
 						}
 						v := vec[x.ID]
-						if v == "h" || v == "d" || v == "t" || v == "T" {
+						if v == "h" || v == "d" || v == "D" || v == "t" || v == "T" {
 							denier, dv = x.ID, v
 							break
 						}
@@ -369,7 +394,7 @@ func c14Engine(c *lab.Ctx) {
 								fmt.Sprintf("%s chain %v verdicts %v: filter #%d answered/terminated the request (%s) but it reached an upstream (%d attempts)", proto, shape.phases, vec, denier, dv, len(ups)), wit)
 						}
 						if dv != "T" {
-							want := map[string]int{"h": 460, "d": 470, "t": 480}[dv] + denier
+							want := map[string]int{"h": 460, "d": 470, "t": 480, "D": 570}[dv] + denier
 							if ev.Kind != "response" {
 								c.Violation("client-gets-the-filters-response", "C14/filter-response-missing/"+sig+"/verdict="+dv,
 									fmt.Sprintf("%s chain %v verdicts %v: filter #%d answered with %d but the client outcome is %s", proto, shape.phases, vec, denier, want, ev.Kind), wit)
@@ -404,7 +429,10 @@ func c14Engine(c *lab.Ctx) {
 								fmt.Sprintf("%s chain %v verdicts %v: no filter denied, yet upstream attempts=%d client=%s %d", proto, shape.phases, vec, len(ups), ev.Kind, ev.Status), wit)
 						}
 					}
-					c.Distinct(fmt.Sprintf("%d|%s|%s", c.Batch%len(c14Shapes), proto, strings.Join(vec, "")))
+					c.Distinct(fmt.Sprintf("%d|%s|%s|%s", c.Batch%len(c14Shapes), proto, key, strings.Join(vec, "")))
+					if os.Getenv("VERIF_C14_ONLY") != "" {
+						fmt.Fprintf(os.Stderr, "DEBUG %v\n", wit)
+					}
 					if vi == 3 && proto == "Http1" {
 						c.Sample(wit)
 					}
